@@ -376,9 +376,9 @@ Proof.
 Qed.
 
 Lemma name_salt_independent kind :
-  kind = NameStr \/ kind = NameRepr ->
+  kind = NameStr \/ kind = NameRepr \/ kind = NameReprEsc ->
   forall sh1 sh2 salt1 salt2 k, name_of kind sh1 salt1 k = name_of kind sh2 salt2 k.
-Proof. intros [-> | ->]; reflexivity. Qed.
+Proof. intros [-> | [-> | ->]]; reflexivity. Qed.
 
 Lemma name_str_collides :
   name_of NameStr no_strhash 0 (KInt 1) = name_of NameStr no_strhash 0 (KStr (chars "1")).
@@ -397,4 +397,96 @@ Proof.
   intros Hne H1 H2. cbn [name_of py_hash].
   apply Z.eqb_neq in H1. apply Z.eqb_neq in H2. rewrite H1, H2.
   intros E. inversion E as [E']. apply app_inv_tail in E'. apply dec_inj in E'. contradiction.
+Qed.
+
+(** * 7. percent-encoded names (NameReprEsc, fixes/C19-slash-in-key.diff) *)
+
+(** reads back one encoded character *)
+Definition unpct1 (l : list ascii) : option (ascii * list ascii) :=
+  match l with
+  | "%" :: "2" :: "5" :: r => Some ("%", r)
+  | "%" :: "2" :: "F" :: r => Some ("/", r)
+  | c :: r => Some (c, r)
+  | [] => None
+  end.
+
+Lemma unpct1_pct1 c r : unpct1 (pct1 c ++ r) = Some (c, r).
+Proof. destruct c as [[] [] [] [] [] [] [] []]; vm_compute; reflexivity. Qed.
+
+(** the encoding is injective on ALL strings (not only on printed keys) *)
+Lemma pct_inj : forall s1 s2, pct s1 = pct s2 -> s1 = s2.
+Proof.
+  unfold pct. induction s1 as [|c1 s1 IH]; destruct s2 as [|c2 s2]; cbn [flat_map]; intros E.
+  - reflexivity.
+  - exfalso. apply (f_equal unpct1) in E. rewrite unpct1_pct1 in E. discriminate E.
+  - exfalso. apply (f_equal unpct1) in E. rewrite unpct1_pct1 in E. discriminate E.
+  - apply (f_equal unpct1) in E. rewrite !unpct1_pct1 in E. inversion E; subst.
+    f_equal. apply IH. assumption.
+Qed.
+
+Lemma pct1_no_slash c : existsb (Ascii.eqb "/") (pct1 c) = false.
+Proof. destruct c as [[] [] [] [] [] [] [] []]; vm_compute; reflexivity. Qed.
+
+Lemma pct_no_slash l : existsb (Ascii.eqb "/") (pct l) = false.
+Proof.
+  unfold pct. induction l as [|c l IH]; [reflexivity|]. cbn [flat_map].
+  rewrite existsb_app, pct1_no_slash, IH. reflexivity.
+Qed.
+
+Lemma list_ascii_eqb_eq : forall a b, list_ascii_eqb a b = true -> a = b.
+Proof.
+  induction a as [|x a IH]; destruct b as [|y b]; cbn [list_ascii_eqb]; intros H; try discriminate; [reflexivity|].
+  apply andb_true_iff in H. destruct H as [H1 H2]. apply Ascii.eqb_eq in H1. subst. f_equal. apply IH. exact H2.
+Qed.
+
+(** every name the escaped name function produces is a single path component -- for EVERY key, inside
+    the modelled universe or not (nothing about [py_repr k] is used) *)
+Lemma esc_name_is_component (l : list ascii) : is_component (pct l ++ dot_p) = true.
+Proof.
+  unfold is_component. rewrite existsb_app, pct_no_slash. cbn [orb negb andb].
+  replace (existsb (Ascii.eqb "/") dot_p) with false by reflexivity. cbn [negb andb].
+  assert (Hlen : 2 <= List.length (pct l ++ dot_p)) by (rewrite app_length; cbn; lia).
+  destruct (pct l ++ dot_p) as [|a q] eqn:E; [cbn in Hlen; lia|]. cbn [andb].
+  destruct (list_ascii_eqb (a :: q) ["."]) eqn:E1.
+  { apply list_ascii_eqb_eq in E1. rewrite E1 in Hlen. cbn in Hlen. lia. }
+  destruct (list_ascii_eqb (a :: q) ["."; "."]) eqn:E2; [|reflexivity].
+  apply list_ascii_eqb_eq in E2. exfalso.
+  assert (Hl : last (pct l ++ dot_p) "x" = "p") by (rewrite last_last || (unfold dot_p; cbn; rewrite (app_assoc _ ["."] ["p"]); apply last_last)).
+  rewrite E, E2 in Hl. cbn in Hl. discriminate Hl.
+Qed.
+
+Lemma name_esc_is_component sh salt k :
+  exists l, name_of NameReprEsc sh salt k = Some l /\ is_component l = true.
+Proof. eexists. split; [reflexivity | apply esc_name_is_component]. Qed.
+
+Lemma name_esc_inj sh1 sh2 salt1 salt2 k1 k2 :
+  wf_key k1 = true -> wf_key k2 = true ->
+  name_of NameReprEsc sh1 salt1 k1 = name_of NameReprEsc sh2 salt2 k2 -> k1 = k2.
+Proof.
+  cbn [name_of]. intros W1 W2 E. inversion E as [E']. apply app_inv_tail in E'. apply pct_inj in E'.
+  exact (py_repr_inj k1 k2 W1 W2 E').
+Qed.
+
+Lemma name_id_safe_inj kind sh salt (keyof : N -> key) id1 id2 :
+  kind = NameRepr \/ kind = NameReprEsc ->
+  wf_key (keyof id1) = true -> wf_key (keyof id2) = true ->
+  name_id kind sh salt keyof id1 = name_id kind sh salt keyof id2 -> keyof id1 = keyof id2.
+Proof.
+  unfold name_id. intros [->| ->]; cbn [name_of]; intros W1 W2 E; apply code_inj in E; apply app_inv_tail in E.
+  - exact (py_repr_inj _ _ W1 W2 E).
+  - apply pct_inj in E. exact (py_repr_inj _ _ W1 W2 E).
+Qed.
+
+(** REGRESSION / the finding while the tree carries f"{k!r}.p": a str key with a path separator gets a
+    name that is not a path component (its file would lie in a sub-directory of the cache directory
+    that nobody creates: save_fn raises FileNotFoundError); the escaped name of the same key is one *)
+Lemma name_repr_not_component :
+  exists k l l', wf_key k = true
+    /\ name_of NameRepr no_strhash 0 k = Some l /\ is_component l = false
+    /\ name_of NameReprEsc no_strhash 0 k = Some l' /\ is_component l' = true
+    /\ string_of_list_ascii l = "'ATP/ADP'.p"%string /\ string_of_list_ascii l' = "'ATP%2FADP'.p"%string.
+Proof.
+  exists (KStr (chars "ATP/ADP")). eexists. eexists.
+  split; [reflexivity|]. split; [reflexivity|]. split; [vm_compute; reflexivity|].
+  split; [reflexivity|]. split; [vm_compute; reflexivity|]. split; vm_compute; reflexivity.
 Qed.
